@@ -103,7 +103,17 @@ def _mk():
                 return data_scalar(it, v, "float()", n)
             return TV(T("float", (v.term,)), kind="opaque")
         if isinstance(v, str):
-            return {"inf": sp.oo, "-inf": -sp.oo}.get(v, Unknown("float(str)"))
+            if v.strip().lower() in ("inf", "+inf", "infinity"):
+                return sp.oo
+            if v.strip().lower() in ("-inf", "-infinity"):
+                return -sp.oo
+            if v.strip().lower() == "nan":
+                return Unknown("float('nan')")
+            try:
+                return num(sp.Rational(v.strip()))
+            except Exception:
+                it.log("raise", n, exc="ValueError")
+                return BOTTOM
         if isinstance(v, (Unknown, Obj)):
             return v if isinstance(v, Unknown) else TV(T("float", (A._term(v),)), kind="opaque")
         if isinstance(v, Gamma):
@@ -120,6 +130,12 @@ def _mk():
             return v
         if isinstance(v, Gamma):
             return it.lift(lambda x: b_int(it, [x], k, n), v)
+        if isinstance(v, str):
+            try:
+                return int(v, *[b_ for b_ in a[1:] if isinstance(b_, int)])
+            except ValueError:
+                it.log("raise", n, exc="ValueError")
+                return BOTTOM
         x = A._sym(v)
         if x.is_integer:
             return num(x)
@@ -526,6 +542,16 @@ def _mk():
         return A._boolcomb(True, pend) if pend else True
 
     def b_round(it, a, k, n):
+        v = a[0]
+        nd = a[1] if len(a) > 1 else k.get("ndigits")
+        if isinstance(v, (int, sp.Basic)) and not isinstance(v, bool) and A._sym(v).is_number and (nd is None or isinstance(nd, int)):
+            x = A._sym(v)
+            scale = sp.Integer(10) ** (nd or 0)
+            y = x * scale
+            fl = sp.floor(y)
+            diff = y - fl
+            r = fl + 1 if diff > sp.Rational(1, 2) else (fl if diff < sp.Rational(1, 2) else (fl if fl % 2 == 0 else fl + 1))  # banker's rounding
+            return num(r / scale) if nd is not None else int(r)
         return Unknown("round()")
 
     def b_id(it, a, k, n):
